@@ -31,6 +31,8 @@ def run(ctx):
     c18_2(ctx)
     c18_3(ctx)
     c18_4(ctx)
+    c18_5(ctx)
+    c18_6(ctx)
 
 
 # ------------------------------------------------------------------ C18.1
@@ -589,3 +591,94 @@ def c18_4(ctx):
         else:
             ok = len(table) == 2 and "Right" in table.get("left", "") and "Left" in table.get("right", "")
         ctx.ob(R, "format:" + nm, ok, "%s maps a child to the opposite side" % nm, found=table)
+
+
+# ------------------------------------------------------------------ C18.5 / C18.6
+def c18_5(ctx):
+    """parent links follow the node: on every accepting path, update_parent(child, Some(P)) is accompanied by a block written
+    at P on the same path (the node whose child it is) — a child never points at an index where its parent was not written"""
+    from .. import apnf
+    from .. import paths as P
+    R = "C18.5"
+    fb = ctx.fb
+    n_sites = 0
+    for p, f in sorted(fb.fns.items()):
+        if not p.startswith(BLOB + "::") or f.e["kind"] != "AssocFn":
+            continue
+        if not any((c.get("def") or "").endswith("::update_parent") for c in f.e["calls"]):
+            continue
+        b = Body(f, fb)
+        ctx.touched(b.path)
+        try:
+            ps = P.enumerate_paths(b, max_paths=300000)
+        except P.Budget:
+            ctx.missing(R, "parent-link:" + p.split("::")[-1], "path budget exceeded")
+            continue
+        bad = []
+        n_ok = 0
+        for ev, ex in ps:
+            if ex[0] != "return" or P.ret_class(ev) != "Ok":
+                continue
+            ups = [e for e in P.calls(ev) if e[2].endswith("::update_parent")]
+            if not ups:
+                continue
+            n_ok += 1
+            ins = [apnf.N(strip_all(e[3][1])) for e in P.calls(ev) if e[2].endswith("::insert_entry_to_blob")]
+            for e in ups:
+                par = apnf.N(strip_all(e[3][2]))
+                pi = par[1] if isinstance(par, tuple) and par and par[0] == "Some" and len(par) == 2 else par
+                if pi not in ins:
+                    bad.append("update_parent(.., %s) but blocks are written at %s" % (str(pi)[:80], [str(x)[:60] for x in ins][:3]))
+        n_sites += 1
+        ctx.ob(R, "parent-link:" + p.split("::")[-1], not bad and n_ok > 0,
+               "%s: every re-parenting on an accepting path names an index at which a block is written on that path (%d paths)" % (p.split("::")[-1], n_ok),
+               found=sorted(set(bad))[:3] or None, where=f.sp)
+    ctx.floor(R, "functions that re-parent nodes", n_sites, 5)
+
+
+PUBLIC_MUTATORS = ("insert", "upsert", "delete", "batch_insert")
+
+
+def c18_6(ctx):
+    """a refused operation leaves the blob unchanged: in the public mutators every explicit refusal (`return Err(<error value>)`,
+    as opposed to the `?` of an internal failure) is decided before the first call that takes the blob or its cache mutably"""
+    R = "C18.6"
+    fb = ctx.fb
+    n = 0
+    for m in PUBLIC_MUTATORS:
+        fs = [f for p, f in fb.fns.items() if (p == BLOB + "::" + m or p.startswith(BLOB + "::" + m + "::<")) and f.e["kind"] == "AssocFn"]
+        if len(fs) != 1:
+            ctx.missing(R, "refuse-before-effect:" + m, "method not found")
+            continue
+        b = Body(fs[0], fb)
+        ctx.touched(b.path)
+        writers = []
+        for bi, nm, t in b.calls():
+            for a in t["args"]:
+                at = b.operand_term(a)
+                while isinstance(at, tuple) and at and at[0] == "mutated":
+                    at = at[1]
+                if isinstance(at, tuple) and at and at[0] == "refmut" and at[1] == 1 and _writes_state(nm):
+                    writers.append((bi, nm))
+                    break
+        refusals = [bi for bi, k, d, rv in b.ret_assignments() if k == "agg" and d[1] == "Err"]
+        bad = []
+        for wb, nm in writers:
+            nxt = b.blocks[wb]["t"].get("t")
+            if nxt is None:
+                continue
+            for r in refusals:
+                if nxt == r or b.reachable_avoiding(nxt, [r], []):
+                    bad.append("%s (%s) can be followed by the explicit refusal at %s" % (U.flat(nm).split("::")[-1], b.where(wb), b.where(r)))
+        n += len(refusals)
+        ctx.ob(R, "refuse-before-effect:" + m, not bad, "%s: no explicit refusal is reachable after a state-changing call (%d refusals, %d writers)" % (m, len(refusals), len(writers)),
+               found=sorted(set(bad))[:3] or None, where=fs[0].sp)
+    ctx.floor(R, "explicit refusals in public mutators", n, 3)
+
+
+READ_ONLY_MUT = ("get_mut", "iter_mut", "as_mut")
+
+
+def _writes_state(name):
+    last = U.flat(name).split("::")[-1]
+    return last not in READ_ONLY_MUT
